@@ -100,6 +100,25 @@ pub fn run(out: &mut Out, seed: u64, tier: &str) {
         };
         one(out, &m, &mut stats);
     }
+    // pairs exactly ON the threshold: two atoms on a coordinate axis, separated by 1.3 x (r_i + r_j) as the code computes it, and by
+    // the doubles just below and just above. On an axis the distance is exact, so the rule "closer than" is checked without clearance.
+    let n_pairs = if tier == "thorough" { 118 * 6 } else { 118 };
+    for k in 0..n_pairs {
+        let (zi, zj) = if k < 118 { (k + 1, k + 1) } else { (1 + rng.below(118), 1 + rng.below(118)) };
+        let limit = 1.3 * (radius(zi) + radius(zj));
+        for (which, r) in [("below", f64::from_bits(limit.to_bits() - 1)), ("on", limit), ("above", f64::from_bits(limit.to_bits() + 1))] {
+            let axis = k % 3;
+            let mut p = [0.0f64; 3]; p[axis] = r;
+            let m = Mol { name: format!("threshold-{}", which), zs: vec![zi, zj], xs: vec![[0.0, 0.0, 0.0], p] };
+            one(out, &m, &mut stats);
+            if let Some(conn) = catch(|| { let mol = m.build(); connectivity(&mol) }) {
+                let cap_ok = AtomicNumber::from_integer(zi).unwrap().maximal_valence() > 0 && AtomicNumber::from_integer(zj).unwrap().maximal_valence() > 0;
+                let bonded = !conn.bonds.is_empty();
+                if bonded && !(r < limit) { out.oracle_fail(&format!("two atoms exactly {} A apart are bonded although 1.3 x the sum of their radii is {} A (not closer than it)", r, limit), &format!("perceive {}", m.line())); }
+                if !bonded && r < limit && cap_ok { out.oracle_fail(&format!("two atoms {} A apart, closer than 1.3 x the sum of their radii ({} A), are not bonded", r, limit), &format!("perceive {}", m.line())); }
+            }
+        }
+    }
     out.stat("molecules", stats.0);
     out.stat("with_bonds", stats.1);
     out.stat("with_a_candidate_pair_left_unbonded", stats.2);
